@@ -131,6 +131,9 @@ class GeminiServerProtocol(asyncio.Protocol):
         if not self.url_line_received:
             # Check if buffer exceeds maximum size without CRLF (DoS protection)
             if len(self.buffer) > MAX_REQUEST_SIZE and CRLF not in self.buffer:
+                # Request refused: stop parsing so that data still arriving
+                # cannot produce a second response on this connection
+                self.url_line_received = True
                 self._send_error_response(
                     StatusCode.BAD_REQUEST, "Request exceeds maximum size (1024 bytes)"
                 )
@@ -143,6 +146,7 @@ class GeminiServerProtocol(asyncio.Protocol):
                 # Check if URL line itself exceeds maximum size
                 # MAX_REQUEST_SIZE includes CRLF, so check url_line + 2
                 if len(url_line) + 2 > MAX_REQUEST_SIZE:
+                    self.url_line_received = True
                     self._send_error_response(
                         StatusCode.BAD_REQUEST,
                         "Request exceeds maximum size (1024 bytes)",
